@@ -53,7 +53,8 @@ class C14(Prop):
         'serVarInt_eq_compactSize', 'serBytes_eq_varBytes', 'msg_digest_eq_spec', 'msg_digest_text', 'magic_prefix',
         'msg_digest_too_long', 'headerByte_eq_spec', 'header_range', 'header_roundtrip', 'headerDecode_eq_spec',
         'header_decode_encode', 'recoverCompact_length', 'verify_true_only_if', 'verify_true_if',
-        'verify_false_other')]
+        'verify_false_other', 'recover_correct', 'verify_recovered', 'signCompact_layout',
+        'signCompact_error', 'recover_eq_reference')]
     anchors = [('bitcoin/signmessage.py', 'VerifyMessage'), ('bitcoin/signmessage.py', 'SignMessage'),
                ('bitcoin/signmessage.py', 'BitcoinMessage'), ('bitcoin/core/key.py', 'CECKey.sign_compact'),
                ('bitcoin/core/key.py', 'CECKey.recover'), ('bitcoin/core/key.py', 'CPubKey.recover_compact'),
